@@ -10,9 +10,9 @@ compute with the integer cells it must compute with (`parse-id = max(parse-id + 
 The key lists (`_parse_keys`, `_result_keys`, `_run_keys`, `affected_tables`) and the default task
 selector are the LIVE ones (`Verif.Generated.TablesC10`).
 
-Not modelled (the model answers `unmodelled`, the generators stay away): responses with `tokens`,
-results with `flags`, edges with daughters/alternates (S-expression formatting), a run without `end`
-(`datetime.now()`), the `_i_id_map` branch of `_map_parse` (input rows keyed by `parse-id` but not by
+Not modelled (the model answers `unmodelled`, the generators stay away): responses with `tokens`, a run
+without `end` (`datetime.now()`); S-expression cells (result `flags`, edge daughters/alternates) are abstract:
+the harness hands the model the cell of the formatted text; the `_i_id_map` branch of `_map_parse` (input rows keyed by `parse-id` but not by
 `i-id`, i.e. the transfer/generate tasks).
 -/
 import Verif.C10.Model
@@ -109,14 +109,17 @@ def mapParse (st : MState) (keys : Dict) (r : Resp) : Except Err (Dict × Int) :
       | _, _ => r.top
     .ok ([("i-id", iidCellOf keys), ("parse-id", encInt pid), ("run-id", runIdCell)] ++ pick c10ParseKeys top, pid)
 
-/-- `FieldMapper._map_result` -/
-def mapResult (pid : Int) (res : Dict) : Dict := [("parse-id", encInt pid)] ++ pick c10ResultKeys res
+/-- `FieldMapper._map_result`; `flags`, if present, is stored as its S-expression text (the harness hands the
+model the cell of `util.SExpr.format(flags)`: the formatting function itself is outside the model) -/
+def mapResult (pid : Int) (res : Dict) : Dict :=
+  [("parse-id", encInt pid)] ++ pick ["flags"] res ++ pick c10ResultKeys res
 
-/-- `FieldMapper._map_edge` for an edge without daughters / alternates -/
+/-- `FieldMapper._map_edge`: `e-daughters` / `e-alternates` become their S-expression text when truthy, else
+None (the harness hands the model the cell of `util.SExpr.format(…)` for a truthy value and None for a falsy
+or missing one: the formatting function itself is outside the model) -/
 def mapEdge (pid : Int) (e : Dict) : Except Err Dict :=
-  let truthy (k : String) := match dget e k with | some c => c != cNone | none => false
-  if truthy "e-daughters" || truthy "e-alternates" then .error .unmodelled
-  else .ok (e ++ [("parse-id", encInt pid), ("e-daughters", cNone), ("e-alternates", cNone)])
+  let keep (k : String) := (dget e k).getD cNone
+  .ok (e ++ [("parse-id", encInt pid), ("e-daughters", keep "e-daughters"), ("e-alternates", keep "e-alternates")])
 
 def mapEdges (pid : Int) : List Dict → Except Err (List Dict)
   | [] => .ok []
@@ -240,12 +243,23 @@ def producedGroups (sch : Schema) (inFields : List FieldS) (script : List Resp) 
     match toRows sch (cleanup st) with
     | (rows, e) => (gs ++ [rows], e)
 
-/-- the input relation of the `parse` task (default task selector): its fields and the rows it shows;
-`ITSDBError` if the relation or the input column is not in the schema -/
-def processInput (sch : Schema) (s : Suite) : Except Err (List FieldS × List Row) :=
-  match c10TaskSelectors.find? (fun p => p.1 == "parse") with
-  | none => .error .keyError
-  | some (_, inTable, inCol) =>
+/-- `process(selector=…)`: the given (table, column) pair, else the default task selector of the `parse` task -/
+def selectorOf (sel : Option (String × String)) : Except Err (String × String) :=
+  match sel with
+  | some p => .ok p
+  | none =>
+    match c10TaskSelectors.find? (fun p => p.1 == "parse") with
+    | none => .error .keyError
+    | some (_, inTable, inCol) => .ok (inTable, inCol)
+
+/-- the input relation (explicit `selector`, else the default task selector): its fields and the rows it
+shows; `ITSDBError` if the relation or the input column is not in the schema — raised BEFORE anything is
+cleared -/
+def processInput (sch : Schema) (s : Suite) (sel : Option (String × String) := none) :
+    Except Err (List FieldS × List Row) :=
+  match selectorOf sel with
+  | .error e => .error e
+  | .ok (inTable, inCol) =>
     match tableIndex sch inTable, sch.find? (fun t => t.name == inTable) with
     | some k, some ts =>
       if !ts.fields.any (fun f => f.name == inCol) then .error .itsdbError else
@@ -254,12 +268,14 @@ def processInput (sch : Schema) (s : Suite) : Except Err (List FieldS × List Ro
       | some t => .ok (ts.fields, abs t)
     | _, _ => .error .itsdbError
 
-/-- `TestSuite.process(cpu)` for a scripted `parse` processor: input relation and column from the
-default task selector, items read up front (`list(source[input_table])`), affected relations cleared,
-every produced row added through `_add_row` (flush when more than `b` rows are pending), database
-written, tables reloaded. -/
-def processM (sch : Schema) (s : Suite) (b : Int) (g : Bool) (script : List Resp) : Suite × Option Err :=
-  match processInput sch s with
+/-- `TestSuite.process(cpu, selector=sel)` for a scripted `parse` processor: input relation and column from
+the selector (default: the task selector; a bad one raises before anything is touched), affected relations
+cleared, THEN the items read up front (`list(source[input_table])`: an input relation that is itself one of
+the affected ones is already empty), every produced row added through `_add_row` (flush when more than `b` rows are pending),
+database written, tables reloaded. -/
+def processM (sch : Schema) (s : Suite) (b : Int) (g : Bool) (script : List Resp)
+    (sel : Option (String × String) := none) : Suite × Option Err :=
+  match processInput sch (clearAt s (affectedIdx sch)) sel with
   | .error e => (s, some e)
   | .ok (inFields, items) =>
     match producedGroups sch inFields script items with
@@ -279,8 +295,9 @@ def traceGroups (s : Suite) (b : Int) : List (List (Nat × Row)) → List Suite
           | (_, some _) => [])
 
 /-- what the `callback` of `process` sees at item 0, 1, …: one suite per processed item -/
-def processPhases (sch : Schema) (s : Suite) (b : Int) (script : List Resp) : List Suite :=
-  match processInput sch s with
+def processPhases (sch : Schema) (s : Suite) (b : Int) (script : List Resp)
+    (sel : Option (String × String) := none) : List Suite :=
+  match processInput sch (clearAt s (affectedIdx sch)) sel with
   | .error _ => []
   | .ok (inFields, items) =>
     let gs := (producedGroups sch inFields script items).1
